@@ -17,11 +17,16 @@ logging.disable(logging.CRITICAL)
 def feed(stuffing, abort, stream, cuts):
     reader = hdlc.HdlcFrameReader(use_octet_stuffing=stuffing, use_abort_sequence=abort)
     frames = []
+    kept = []
     for chunk in G.split(stream, cuts):
         got = guarded(reader.read, chunk, what="HdlcFrameReader.read")
         if not isinstance(got, list):
             fail(f"read() returned {type(got).__name__}, not a list", sig="not-list")
-        frames.extend(got)
+        kept.append((got, list(got)))
+    for k, (lst, snap) in enumerate(kept):  # a caller may keep every returned list: later calls must not touch it
+        if len(lst) != len(snap) or any(a is not b for a, b in zip(lst, snap)):
+            fail(f"the list returned by read() call #{k} of {len(kept)} was changed by a later call ({len(snap)} frames then, {len(lst)} now)", sig="returned-list-mutated")
+        frames.extend(snap)
     return frames
 
 
@@ -80,6 +85,7 @@ def oracle(case) -> Info:
     classes = [f"cfg:{int(stuffing)}{int(abort)}", f"cuts:{cuts[0]}"]
     interesting = False
     octs = []
+    fr = None
     for i, fr in enumerate(frames):
         valid, fcs_ok, len_ok, fields, b = check_frame_predicates(fr, i)
         octs.append(b)
@@ -93,6 +99,19 @@ def oracle(case) -> Info:
                 classes.append("valid-address>4-octets")
         if valid and fields and fields["payload"] not in (None, "ambiguous") and fcs16_octets(b[: 2 + len(fields["destination_address"]) + len(fields["source_address"]) + 1]) != fields["hcs"]:
             classes.append("valid-frame-with-wrong-HCS")
+    # a caller may keep only frame.header: the header accessors must keep working after the frame object itself is gone
+    kept_headers = []
+    for fr, b in zip(frames, octs):
+        f_ = ref_fields(b)
+        if f_ is not None and ref_valid(b):
+            kept_headers.append((fr.header, f_, b))
+    nframes = len(frames)
+    del frames, fr  # (no gc.collect(): whatever keeps the frame alive - a reference cycle included - is the library's business)
+    for h, f_, b in kept_headers:
+        got_h = guarded(lambda: (h.destination_address, h.source_address, h.control, h.frame_length), what="header accessors after the frame was dropped")
+        if got_h != (f_["destination_address"], f_["source_address"], f_["control"], f_["frame_length"]):
+            fail(f"valid frame {b.hex()}: header accessors after the frame object was released give {got_h!r}", sig="header-after-frame-dropped")
+    frames = [None] * nframes
     ok, info = find_embedding(stream, octs, stuffing)
     if not ok:
         fail(
